@@ -260,3 +260,45 @@ func verifHarnessC14InterleaveActivate()       { verifC14Interleave(opActivate) 
 func verifHarnessC14InterleaveDeleteVersion()  { verifC14Interleave(opDeleteVersion) }
 func verifHarnessC14InterleaveGet()            { verifC14Interleave(opGet) }
 func verifHarnessC14InterleaveGetConditional() { verifC14Interleave(opGetConditional) }
+
+// ---------- C14: a response, once returned, is the caller's own: later requests do not rewrite it ----------
+
+// A client holds the response of info/list while other clients' requests run to completion (the HTTP handler itself
+// serialises the response after the database lock is released). What the client then reads is still what the call
+// returned -- otherwise it sees a state no sequential order explains.
+func verifC14ResponseStable(opA int) {
+	k := verifSymKV(param("secrets"), param("versions"), "")
+	assume(verifKVInv(k))
+	assume(mapAll(k.secrets, func(_ string, s *secret) bool { return s.LatestVersion < 0xFFFFFFFC }))
+	d := verifDB(k, &verifSink{})
+	name := nondetString("name")
+	var info *api.SecretInfo
+	var list []*api.SecretInfo
+	var err error
+	if opA == opInfo {
+		info, err = d.Info(verifSuperuser(), name)
+	} else {
+		list, err = d.List(verifSuperuser())
+	}
+	if err != nil {
+		reach("end-error")
+		return
+	}
+	infoThen := snapshot(info)
+	listThen := snapshot(list)
+	// an earlier call of the same kind may have warmed whatever the implementation keeps: do the read twice
+	n := 1 + nondetChoice("later.requests", 2)
+	for i := 0; i < n; i++ {
+		opB := []int{opPut, opActivate, opDeleteVersion, opDelete}[nondetChoice("opB", 4)]
+		verifCallOp(d, opB, verifSuperuser(), name, api.SecretVersion(nondetU32("versionB")), nondetSeq("valB"))
+	}
+	if opA == opInfo {
+		assert("returned-info-not-rewritten-by-later-requests", deepEq(info, infoThen))
+	} else {
+		assert("returned-list-not-rewritten-by-later-requests", deepEq(list, listThen))
+	}
+	reach("end")
+}
+
+func verifHarnessC14InfoStable() { verifC14ResponseStable(opInfo) }
+func verifHarnessC14ListStable() { verifC14ResponseStable(opList) }
